@@ -327,8 +327,11 @@ Section Exec.
     | Some c => upd_obj st cid (set_amap c target)
     end.
 
-  Definition new_obj (p : path) (k : kind) : obj :=
-    {| o_path := p; o_id := p; o_kind := k; o_amap := []; o_rawbase := None; o_initbase := None;
+  (* identity of a new definition = identity of its lexical parent ++ [name] (CPython's __module__.__qualname__);
+     its full name = CURRENT full name of the parent ++ [name] (they differ when the parent has been moved by a
+     re-export while its body was still being visited) *)
+  Definition new_obj (p i : path) (k : kind) : obj :=
+    {| o_path := p; o_id := i; o_kind := k; o_amap := []; o_rawbase := None; o_initbase := None;
        o_baseobj := None; o_state := Unprocessed |}.
 
   (* addObject: a second object under the same full name is outside the model (handleDuplicate) *)
@@ -367,15 +370,16 @@ Section Exec.
                        | None => None
                        end in
         let p := o_path par ++ [n] in
-        let c := {| o_path := p; o_id := p; o_kind := KClass; o_amap := []; o_rawbase := base;
+        let i := o_id par ++ [n] in
+        let c := {| o_path := p; o_id := i; o_kind := KClass; o_amap := []; o_rawbase := base;
                     o_initbase := expandbase; o_baseobj := baseobj; o_state := Processed |} in
         let st1 := register st c in
-        fold_left (exec_stmt mid p) body st1
+        fold_left (exec_stmt mid i) body st1
       end
     | SDef n =>
       match by_id st cid with
       | None => st
-      | Some par => register st (new_obj (o_path par ++ [n]) KFun)
+      | Some par => register st (new_obj (o_path par ++ [n]) (o_id par ++ [n]) KFun)
       end
     | SAlias target expr =>
       match by_id st cid with
